@@ -3,7 +3,7 @@
    evidence hands the member over for suspicion; an unrefuted suspicion timeout declares it Down
    and notifies MemberDown), the effects of leaving and the silence of a defunct instance.
    The cluster-wide bound is decided by crash / leave simulations of real instances. *)
-From Foca Require Import Laws MembersM ProbeM FocaM WireM L_Members L_MembersInv L_Join Inv L_Wire L_Probe L_Mech L_RoundRobin L_Timeout L_Discard L_Acct L_RoundSuspect.
+From Foca Require Import Laws MembersM ProbeM FocaM WireM L_Members L_MembersInv L_Join Inv L_Wire L_Probe L_Mech L_RoundRobin L_Timeout L_Discard L_Acct L_RoundSuspect L_Defunct.
 
 Section C03.
 Context {Id Addr : Type} {IO : IdOps Id Addr} {CO : CodecOps Id} {HO : HandlerOps Id}.
@@ -75,6 +75,26 @@ Theorem C03_failed_round_hands_over_to_timeout (rnd : oracle) (f : @foca Id Addr
   /\ conn f1 = Connected /\ token f1 = token f.
 Proof. exact (failed_round_hands_over rnd f fm k). Qed.
 
+(* A DEFUNCT INSTANCE STAYS DEFUNCT, along every call other than change_identity / reuse_down_identity
+   (and not aborted by an Encode error or a panic): an instance that left the cluster, or was declared
+   Down and could not renew, is still Undead after the call and notified no Active - whatever datagram,
+   timer or API call it was - unless the call notified Rejoin, the automatic renewal into a new, winning
+   identity (C10_down_dichotomy) *)
+Theorem C03_defunct_stays_defunct (rnd : oracle) (f : @foca Id Addr HO) (i : @input Id) :
+  match i with IChangeIdentity _ | IReuseDown => False | _ => True end ->
+  conn f = Undead ->
+  let '(f', es, r, _) := step rnd f i in
+  match r with Failed EEncode => True | Panicked _ => True | _ =>
+    (conn f' = Undead /\ existsb is_active_note es = false) \/ rejoined es
+  end.
+Proof. exact (step_defunct_stays rnd f i). Qed.
+
+Theorem C03_defunct_terms (es : list (effect Id)) (e : effect Id) :
+  (rejoined es <-> existsb is_rejoin es = true)
+  /\ is_rejoin e = (match e with Notify (NRejoin _) => true | _ => false end)
+  /\ is_active_note e = (match e with Notify NActive => true | _ => false end).
+Proof. repeat split; auto. Qed.
+
 End C03.
 
 Print Assumptions C03_probed_within_2n_minus_1.
@@ -84,3 +104,5 @@ Print Assumptions C03_leave_ends_defunct.
 Print Assumptions C03_defunct_ignores_messages.
 Print Assumptions C03_defunct_does_not_refute.
 Print Assumptions C03_failed_round_hands_over_to_timeout.
+Print Assumptions C03_defunct_stays_defunct.
+Print Assumptions C03_defunct_terms.
